@@ -1139,9 +1139,20 @@ Proof.
   split; [now rewrite app_nil_r|exact I].
 Qed.
 
-Lemma Sim_enter : forall pc, laser_ok (abs_cfg pc) = true -> Sim (src___enter__ pc) (h_enter (abs_cfg pc)).
+(* what __enter__ does after it has decided about the dwell total (as generated; PgmSrc.v) *)
+Definition enter_rest (c : pcfg) : MP unit :=
+  (src_header c) ;;; (src_dwell c (Some ((1) # 1)%Q)) ;;; (src_instruction c [PL nl]) ;;;
+  if (truthy (cfg_aerotech_angle c)) then (src__enter_axis_rotation c (as_opt (cfg_aerotech_angle c))) ;;; ret tt else ret tt.
+
+(* __enter__ restarts the dwell total iff no instruction is pending (instructions given before the `with` belong to this program) *)
+Lemma enter_unfold : forall pc p,
+  src___enter__ pc p = if negb (truthy (instructions p)) then (modify (set_total_dwell_time (0 # 1)%Q) ;;; enter_rest pc) p else enter_rest pc p.
+Proof. intros pc p. unfold src___enter__, enter_rest, bind at 1, get. destruct (negb (truthy (instructions p))); reflexivity. Qed.
+
+Lemma Sim_enter_reset : forall pc, laser_ok (abs_cfg pc) = true ->
+  Sim (modify (set_total_dwell_time (0 # 1)%Q) ;;; enter_rest pc) (h_enter (abs_cfg pc)).
 Proof.
-  intros pc Hl. unfold src___enter__, src_header. cbn [laser_ok abs_cfg] in Hl. fold lasers. rewrite Hl.
+  intros pc Hl. unfold enter_rest, src_header. cbn [laser_ok abs_cfg] in Hl. fold lasers. rewrite Hl.
   change (is_none (cfg_laser pc) || negb true)%bool with false. cbv iota.
   unfold as_opt, asopt_val.
   apply (Sim_ext _ (fun st => seq (st_dwell st 0, [], Ok) (fun st =>
@@ -1162,6 +1173,14 @@ Proof.
   apply Sim_bind; [apply Sim_blank|intros _].
   destruct (truthy (cfg_aerotech_angle pc)); [|apply Sim_ret].
   apply Sim_bind; [apply (Sim_enter_rot pc (Some (cfg_aerotech_angle pc)))|intros _; apply Sim_ret].
+Qed.
+
+(* entered with nothing pending (a new object, or one whose last file has been closed): the model's __enter__ *)
+Lemma Sim_enter_fresh : forall pc p st, laser_ok (abs_cfg pc) = true -> instructions p = [] -> Rel p st ->
+  SimR (src___enter__ pc p) (h_enter (abs_cfg pc) st) p.
+Proof.
+  intros pc p st Hl Hi HR. rewrite enter_unfold, Hi. cbn [truthy truthy_list negb].
+  exact (Sim_elim _ _ (Sim_enter_reset pc Hl) p st HR).
 Qed.
 
 Lemma Sim_exit : forall pc, laser_ok (abs_cfg pc) = true -> Sim (src___exit__ pc) (h_exit (abs_cfg pc)).
@@ -1212,8 +1231,8 @@ Theorem session_equiv : forall pc ops, Forall wf_pop ops ->
 Proof.
   intros pc ops Hw. unfold src_session, session.
   destruct (laser_ok (abs_cfg pc)) eqn:Hl; cbn [negb].
-  2:{ unfold src___enter__, src_header. cbn [laser_ok abs_cfg] in Hl. fold lasers. rewrite Hl. reflexivity. }
-  pose proof (Sim_elim _ _ (Sim_enter pc Hl) p0 c0 Rel0) as H1. unfold SimR, h_enter in H1.
+  2:{ rewrite enter_unfold. cbn [instructions p0 instr_front instr_back app truthy truthy_list negb]. unfold enter_rest, src_header. cbn [laser_ok abs_cfg] in Hl. fold lasers. rewrite Hl. reflexivity. }
+  pose proof (Sim_enter_fresh pc p0 c0 Hl eq_refl Rel0) as H1. unfold SimR, h_enter in H1.
   change (st_dwell c0 0) with c0 in H1.
   destruct (do_dwell c0 (Some 1)) as [st1 e1].
   destruct (if aero (abs_cfg pc) then enter_rot (abs_cfg pc) st1 false else (st1, [])) as [st2 e2].
